@@ -256,6 +256,13 @@ class WriterExtractor:
                     if q == f"{ASN1}.ASN1Writer" and not v.args and not v.keywords:
                         env[tg.id] = ("writer", [], "root")
                         return None
+                    inner = v
+                    while isinstance(inner, ast.Call) and isinstance(inner.func, ast.Name) and inner.func.id in ("bytes", "bytearray") and len(inner.args) == 1:
+                        inner = inner.args[0]
+                    if isinstance(inner, ast.Call) and isinstance(inner.func, ast.Attribute) and inner.func.attr == "get_data" and isinstance(inner.func.value, ast.Name) \
+                            and env.get(inner.func.value.id, ("",))[0] == "writer":
+                        env[tg.id] = ("writerdata", env[inner.func.value.id][1])
+                        return None
                     r = self._call(v, env, fi, cls_q, tg.id)
                     if r is not None:
                         env[tg.id] = r
@@ -341,6 +348,8 @@ class WriterExtractor:
                 w = env.get(inner.func.value.id)
                 if w and w[0] == "writer":
                     return w[1]
+            if isinstance(inner, ast.Name) and env.get(inner.id, ("",))[0] == "writerdata":
+                return env[inner.id][1]
             src = self._src(v, env, fi)
             return [WNode("value", src=src, line=s.lineno, func=fi.qualname)]
         if isinstance(s, ast.Pass):
@@ -629,6 +638,102 @@ class ReaderResult:
         return None
 
 
+CLASSES4 = frozenset({"UNIVERSAL", "APPLICATION", "CONTEXT_SPECIFIC", "PRIVATE"})
+
+
+class Box:
+    """A set of (tag class, tag number) pairs: classes x numbers, numbers given as a finite set or its complement."""
+    def __init__(self, classes, nums_in=None, nums_notin=frozenset()):
+        self.classes = frozenset(classes)
+        self.nums_in = None if nums_in is None else frozenset(nums_in)
+        self.nums_notin = frozenset(nums_notin)
+
+    def empty(self) -> bool:
+        return not self.classes or (self.nums_in is not None and not self.nums_in)
+
+    def meet(self, o: "Box") -> "Box":
+        cl = self.classes & o.classes
+        if self.nums_in is not None and o.nums_in is not None:
+            return Box(cl, self.nums_in & o.nums_in)
+        if self.nums_in is not None:
+            return Box(cl, self.nums_in - o.nums_notin)
+        if o.nums_in is not None:
+            return Box(cl, o.nums_in - self.nums_notin)
+        return Box(cl, None, self.nums_notin | o.nums_notin)
+
+    def complement(self) -> List["Box"]:
+        out = [Box(CLASSES4 - self.classes)]
+        if self.nums_in is not None:
+            out.append(Box(self.classes, None, self.nums_in))
+        elif self.nums_notin:
+            out.append(Box(self.classes, self.nums_notin))
+        return [b for b in out if not b.empty()]
+
+
+def region_meet(a: List[Box], b: List[Box]) -> List[Box]:
+    return [m for x in a for y in b for m in [x.meet(y)] if not m.empty()]
+
+
+def region_not(a: List[Box]) -> List[Box]:
+    out = [Box(CLASSES4)]
+    for x in a:
+        out = region_meet(out, x.complement())
+    return out
+
+
+def normalise_guards(body: List[ast.stmt]) -> List[ast.stmt]:
+    """Early-return guard clauses of a decoder are rewritten into the nested form the extractor reads:
+
+        if not C: return K(a=x, b=None)              b = None
+        REST                                  ==>    if C:
+        return K(a=x, b=y)                               REST
+                                                     return K(a=x, b=y)
+
+    Only when the early return builds the same class with the same arguments, except for arguments that are a constant in
+    the early return and a local (first bound in REST) in the final one.  Anything else is left untouched."""
+    if len(body) < 2 or not (isinstance(body[-1], ast.Return) and isinstance(body[-1].value, ast.Call)):
+        return body
+    final = body[-1].value
+    fkw = {k.arg: k.value for k in final.keywords if k.arg}
+    for i, s in enumerate(body[:-1]):
+        if not (isinstance(s, ast.If) and not s.orelse and len(s.body) == 1 and isinstance(s.body[0], ast.Return) and isinstance(s.body[0].value, ast.Call)):
+            continue
+        early = s.body[0].value
+        if norm(early.func) != norm(final.func) or [norm(a) for a in early.args] != [norm(a) for a in final.args]:
+            continue
+        ekw = {k.arg: k.value for k in early.keywords if k.arg}
+        if set(ekw) != set(fkw):
+            continue
+        pre: List[ast.stmt] = []
+        ok = True
+        bound_before = {x.id for b in body[:i] for x in ast.walk(b) if isinstance(x, ast.Name) and isinstance(x.ctx, ast.Store)}
+        for k, ev in ekw.items():
+            fv = fkw[k]
+            if norm(ev) == norm(fv):
+                continue
+            if isinstance(ev, ast.Constant) and isinstance(fv, ast.Name) and fv.id not in bound_before:
+                a = ast.Assign(targets=[ast.Name(id=fv.id, ctx=ast.Store())], value=ev)
+                ast.copy_location(a, s)
+                ast.fix_missing_locations(a)
+                pre.append(a)
+            else:
+                ok = False
+        if not ok:
+            continue
+        t = s.test
+        neg = t.operand if isinstance(t, ast.UnaryOp) and isinstance(t.op, ast.Not) else ast.UnaryOp(op=ast.Not(), operand=t)
+        rest = normalise_guards(list(body[i + 1:]))
+        inner = rest[:-1] if rest and isinstance(rest[-1], ast.Return) and norm(rest[-1]) == norm(body[-1]) else None
+        if inner is None:
+            continue
+        # assignments hoisted by the recursive call stay inside; that is fine: they precede their own guard
+        new_if = ast.If(test=neg, body=inner or [ast.Pass()], orelse=[])
+        ast.copy_location(new_if, s)
+        ast.fix_missing_locations(new_if)
+        return list(body[:i]) + pre + [new_if, body[-1]]
+    return body
+
+
 class ReaderExtractor:
     def __init__(self, model: Model):
         self.m = model
@@ -670,13 +775,16 @@ class ReaderExtractor:
         st = {"readers": {}, "headers": {}, "res": res, "fi": fi, "cls": cls_q or fi.cls, "lists": {}, "values": {}, "emitted": []}
         if rp is not None:
             st["readers"][rp] = res.nodes
-        self._block(fi.node.body, st)
+        self._block(normalise_guards(list(fi.node.body)), st)
         return res
 
     # ------------------------------------------------------------------ helpers
     def _tagtests(self, t: ast.expr, st) -> Optional[Tuple[str, TagSpec]]:
         """Conjunction of tests on `<h>.tag.tag_class == TagClass.X` / `<h>.tag.tag_number == N` -> (header var, spec)."""
         t = self._subst_aliases(t, st)
+        oh = self._opt_header_test(t, st)
+        if oh is not None:
+            t = oh
         conj = t.values if isinstance(t, ast.BoolOp) and isinstance(t.op, ast.And) else [t]
         hv = None
         cls_name = None
@@ -693,7 +801,7 @@ class ReaderExtractor:
                 if lt.endswith(".tag.tag_class") or lt.endswith(".tag_class"):
                     hv = lt.split(".")[0]
                     try:
-                        v = self.folder.fold(r_, st["fi"].module, None, st["cls"])
+                        v = self.folder.fold(r_, st["fi"].module, st.get("consts"), st["cls"])
                     except Unfoldable:
                         return None
                     cls_name = v.member if isinstance(v, EnumConst) else None
@@ -702,7 +810,7 @@ class ReaderExtractor:
                 if lt.endswith(".tag.tag_number") or lt.endswith(".tag_number"):
                     hv = lt.split(".")[0]
                     try:
-                        v = self.folder.fold(r_, st["fi"].module, None, st["cls"])
+                        v = self.folder.fold(r_, st["fi"].module, st.get("consts"), st["cls"])
                     except Unfoldable:
                         return None
                     number = v.value if isinstance(v, EnumConst) else v
@@ -712,6 +820,126 @@ class ReaderExtractor:
         if not found:
             return None
         return hv, TagSpec("header", None, cls_name, number)
+
+    def _region_of(self, t: ast.expr, st, hv: str) -> Optional[List[Box]]:
+        """The set of (class, number) identifiers of header `hv` for which test t holds; None if t is not a tag test."""
+        t = self._subst_aliases(t, st)
+        oh = self._opt_header_test(t, st)
+        if oh is not None:
+            t = oh
+        if isinstance(t, ast.BoolOp):
+            parts = [self._region_of(v, st, hv) for v in t.values]
+            if any(p_ is None for p_ in parts):
+                # `h and <tests>`: a bare header name is always true here
+                parts = [p_ for p_, v in zip(parts, t.values) if not (p_ is None and isinstance(v, ast.Name) and v.id == hv)]
+                if any(p_ is None for p_ in parts) or not parts:
+                    return None
+            if isinstance(t.op, ast.And):
+                out = [Box(CLASSES4)]
+                for p_ in parts:
+                    out = region_meet(out, p_)
+                return out
+            return [b for p_ in parts for b in p_]
+        if isinstance(t, ast.UnaryOp) and isinstance(t.op, ast.Not):
+            r = self._region_of(t.operand, st, hv)
+            return None if r is None else region_not(r)
+        if isinstance(t, ast.Call):
+            inl = self._inline_predicate(t, st)
+            if len(inl) == 1 and inl[0] is t:
+                return None
+            out = [Box(CLASSES4)]
+            for x in inl:
+                r = self._region_of(x, st, hv)
+                if r is None:
+                    return None
+                out = region_meet(out, r)
+            return out
+        if isinstance(t, ast.Compare) and len(t.ops) == 1:
+            lt = norm(t.left)
+            op = t.ops[0]
+            if not (lt.startswith(hv + ".") or lt == hv):
+                return None
+            try:
+                v = self.folder.fold(t.comparators[0], st["fi"].module, st.get("consts"), st["cls"])
+            except Unfoldable:
+                return None
+            vals = list(v) if isinstance(v, tuple) else [v]
+            if lt.endswith(".tag_class"):
+                names = {x.member for x in vals if isinstance(x, EnumConst)}
+                if len(names) != len(vals):
+                    return None
+                if isinstance(op, (ast.Eq, ast.In)):
+                    return [Box(names)]
+                if isinstance(op, (ast.NotEq, ast.NotIn)):
+                    return [Box(CLASSES4 - names)]
+                return None
+            if lt.endswith(".tag_number"):
+                nums = {x.value if isinstance(x, EnumConst) else x for x in vals}
+                if not all(isinstance(x, int) for x in nums):
+                    return None
+                if isinstance(op, (ast.Eq, ast.In)):
+                    return [Box(CLASSES4, nums)]
+                if isinstance(op, (ast.NotEq, ast.NotIn)):
+                    return [Box(CLASSES4, None, nums)]
+                return None
+        return None
+
+    @staticmethod
+    def _only_skip(body: List[ast.stmt]) -> bool:
+        rest = [b for b in body if not isinstance(b, (ast.Continue, ast.Pass))]
+        return len(rest) == 1 and isinstance(rest[0], ast.Expr) and isinstance(rest[0].value, ast.Call) and isinstance(rest[0].value.func, ast.Attribute) and rest[0].value.func.attr == "skip_value"
+
+    def _dispatch_chain(self, s: ast.If, st, optset: RNode, hv: str, within: Optional[List[Box]] = None) -> bool:
+        """An if/elif/else chain of arbitrary tag tests on header hv inside a dispatch loop, decided with a small set algebra
+        over (class, number): each branch gets the identifiers that reach it.  False = not such a chain (nothing emitted)."""
+        chain: List[Tuple[Optional[ast.expr], List[ast.stmt]]] = []
+        cur: Optional[ast.If] = s
+        while cur is not None:
+            chain.append((cur.test, cur.body))
+            if len(cur.orelse) == 1 and isinstance(cur.orelse[0], ast.If):
+                cur = cur.orelse[0]
+            else:
+                if cur.orelse:
+                    chain.append((None, cur.orelse))
+                cur = None
+        regions = []
+        remaining = within if within is not None else [Box(CLASSES4)]
+        for test, body in chain:
+            if test is None:
+                regions.append((remaining, body))
+                break
+            r = self._region_of(test, st, hv)
+            if r is None:
+                return False
+            regions.append((region_meet(remaining, r), body))
+            remaining = region_meet(remaining, region_not(r))
+        plan = []
+        for reg, body in regions:
+            if self._only_skip(body):
+                plan.append(("skip", None, body))
+                continue
+            specs = []
+            for b in reg:
+                if len(b.classes) != 1:
+                    return False
+                cn = next(iter(b.classes))
+                if b.nums_in is not None:
+                    specs += [TagSpec("header", None, cn, n) for n in sorted(b.nums_in)]
+                elif not b.nums_notin:
+                    specs.append(TagSpec("header", None, cn, None))
+                else:
+                    return False
+            if not specs and not reg:
+                continue            # unreachable branch
+            plan.append(("alt", specs, body))
+        for kind, specs, body in plan:
+            if kind == "skip":
+                optset.skip_unknown = True
+                continue
+            inner_ifs = [b for b in body if isinstance(b, ast.If)]
+            for sp in specs:
+                self._alt(body, sp, st, optset, hv)
+        return True
 
     def _subst_aliases(self, t: ast.expr, st) -> ast.expr:
         """Locals that merely name a part of a peeked header (`tag = header.tag`, `is_ctx = tag.tag_class == ...`) are
@@ -742,6 +970,104 @@ class ReaderExtractor:
             return False
         st.setdefault("aliases", {})[name] = v
         return True
+
+    def _header_helper(self, name: str, call: ast.Call, st) -> bool:
+        """`h = helper(reader, ...)` where the helper peeks at the next header of the reader and returns it, or None unless the
+        header passes tag tests: h becomes a header local whose presence (`h is not None` / `if h:`) stands for those tests."""
+        if not isinstance(call.func, ast.Name):
+            return False
+        rargs = [(i, a.id) for i, a in enumerate(call.args) if isinstance(a, ast.Name) and a.id in st["readers"]]
+        if len(rargs) != 1:
+            return False
+        q = self.m.resolve_name(st["fi"].module, call.func.id)
+        hf = self.m.functions.get(q) if q else None
+        if hf is None or hf.cls is not None or isinstance(hf.node, ast.Lambda):
+            return False
+        ps = hf.params()
+        if rargs[0][0] >= len(ps):
+            return False
+        rparam = ps[rargs[0][0]]
+        body = [b for b in hf.node.body if not (isinstance(b, ast.Expr) and isinstance(b.value, ast.Constant))]
+        hvar = None
+        conds: List[ast.expr] = []          # conditions under which the helper returns None after the peek
+        for b in body:
+            if isinstance(b, ast.Assign) and len(b.targets) == 1 and isinstance(b.targets[0], ast.Name) and isinstance(b.value, ast.Call) and \
+                    isinstance(b.value.func, ast.Attribute) and b.value.func.attr == "peek_header" and norm(b.value.func.value) == rparam:
+                if hvar is not None:
+                    return False
+                hvar = b.targets[0].id
+            elif isinstance(b, ast.If) and not b.orelse and len(b.body) == 1 and isinstance(b.body[0], ast.Return) and \
+                    (b.body[0].value is None or (isinstance(b.body[0].value, ast.Constant) and b.body[0].value.value is None)):
+                if hvar is None:
+                    # before the peek: only `if not reader: return None`
+                    if not (isinstance(b.test, ast.UnaryOp) and isinstance(b.test.op, ast.Not) and norm(b.test.operand) == rparam):
+                        return False
+                else:
+                    conds.append(b.test)
+            elif isinstance(b, ast.Return) and hvar is not None and isinstance(b.value, ast.Name) and b.value.id == hvar and b is body[-1]:
+                pass
+            elif isinstance(b, ast.Return) and hvar is not None and isinstance(b.value, ast.IfExp) and b is body[-1] and isinstance(b.value.body, ast.Name) and b.value.body.id == hvar \
+                    and isinstance(b.value.orelse, ast.Constant) and b.value.orelse.value is None:
+                conds.append(ast.UnaryOp(op=ast.Not(), operand=b.value.test))
+            else:
+                return False
+        if hvar is None or not body or not isinstance(body[-1], ast.Return):
+            return False
+        # the header is returned exactly when no rejecting condition holds: negate and flatten into a conjunction of equalities
+        lits: List[ast.expr] = []
+
+        def neg(e: ast.expr) -> bool:
+            if isinstance(e, ast.BoolOp) and isinstance(e.op, ast.Or):
+                return all(neg(v) for v in e.values)
+            if isinstance(e, ast.UnaryOp) and isinstance(e.op, ast.Not):
+                return pos(e.operand)
+            if isinstance(e, ast.Compare) and len(e.ops) == 1 and isinstance(e.ops[0], ast.NotEq):
+                lits.append(ast.Compare(left=e.left, ops=[ast.Eq()], comparators=e.comparators))
+                return True
+            return False
+
+        def pos(e: ast.expr) -> bool:
+            if isinstance(e, ast.BoolOp) and isinstance(e.op, ast.And):
+                return all(pos(v) for v in e.values)
+            if isinstance(e, ast.Compare) and len(e.ops) == 1 and isinstance(e.ops[0], ast.Eq):
+                lits.append(e)
+                return True
+            return False
+        if not all(neg(c) for c in conds) or not lits:
+            return False
+        # substitute the helper's parameters by the call's arguments and its header local by `name`
+        sub: Dict[str, ast.expr] = {hvar: ast.Name(id=name, ctx=ast.Load())}
+        for i, a in enumerate(call.args):
+            if i < len(ps):
+                sub[ps[i]] = a
+        for k in call.keywords:
+            if k.arg in ps:
+                sub[k.arg] = k.value
+
+        class Sub(ast.NodeTransformer):
+            def visit_Name(self, n: ast.Name):
+                if isinstance(n.ctx, ast.Load) and n.id in sub:
+                    return copy.deepcopy(sub[n.id])
+                return n
+        test = ast.BoolOp(op=ast.And(), values=[Sub().visit(copy.deepcopy(x)) for x in lits]) if len(lits) > 1 else Sub().visit(copy.deepcopy(lits[0]))
+        ast.fix_missing_locations(ast.copy_location(test, call))
+        for x in ast.walk(test):
+            if not hasattr(x, "lineno"):
+                ast.copy_location(x, call)
+        st["headers"].setdefault(name, None)
+        st.setdefault("peek_of", {})[name] = rargs[0][1]
+        st.setdefault("opt_headers", {})[name] = test
+        return True
+
+    def _opt_header_test(self, t: ast.expr, st) -> Optional[ast.expr]:
+        """`h is not None` / `h` for a header local produced by a header helper -> the tag tests it stands for."""
+        oh = st.get("opt_headers") or {}
+        if isinstance(t, ast.Name) and t.id in oh:
+            return oh[t.id]
+        if isinstance(t, ast.Compare) and len(t.ops) == 1 and isinstance(t.ops[0], ast.IsNot) and isinstance(t.left, ast.Name) and t.left.id in oh \
+                and isinstance(t.comparators[0], ast.Constant) and t.comparators[0].value is None:
+            return oh[t.left.id]
+        return None
 
     def _inline_predicate(self, c: ast.expr, st, depth: int = 0) -> List[ast.expr]:
         """A call to a module-level predicate helper (straight-line aliases + one `return <bool expr>`) is replaced by its
@@ -811,7 +1137,7 @@ class ReaderExtractor:
                 hdr_e = k.value
         if tag_e is not None and not (isinstance(tag_e, ast.Constant) and tag_e.value is None):
             try:
-                v = self.folder.fold(tag_e, st["fi"].module, None, st["cls"])
+                v = self.folder.fold(tag_e, st["fi"].module, st.get("consts"), st["cls"])
             except Unfoldable as ex:
                 raise AnalysisError(f"{st['fi'].qualname}:{call.lineno}: reader tag `{norm(tag_e)}` does not fold ({ex})")
             if not isinstance(v, TagConst):
@@ -915,6 +1241,8 @@ class ReaderExtractor:
                     st["headers"].setdefault(name, None)
                     st.setdefault("peek_of", {})[name] = norm(v.func.value)
                     return
+                if isinstance(v, ast.Call) and self._header_helper(name, v, st):
+                    return
                 n = self._emit_read(name, v, st)
                 if n is not None:
                     return
@@ -932,6 +1260,15 @@ class ReaderExtractor:
                 if isinstance(v, ast.Call) and isinstance(v.func, ast.Attribute) and v.func.attr == "decode" and isinstance(v.func.value, ast.Name):
                     res.conv_of_var[name] = f"str({(norm(v.args[0]) if v.args else 'utf-8').split('.')[-1]})"
                     st["values"][name] = v.func.value.id
+                    # the raw local only exists to be decoded: the value read lives on under the new name
+                    src_name = v.func.value.id
+                    if src_name != name:
+                        for nd in reversed(st["emitted"]):
+                            if nd.var == src_name and nd.func == fi.qualname and nd.kind == "prim":
+                                nd.var = name
+                                if src_name in res.defaults and name not in res.defaults:
+                                    res.defaults[name] = res.defaults[src_name]
+                                break
                     return
                 # nested unpack calls
                 if isinstance(v, ast.Call):
@@ -995,6 +1332,10 @@ class ReaderExtractor:
                 for i, e in enumerate(v.elts):
                     if isinstance(e, ast.Name):
                         res.field_of_var[e.id] = f"#{i}"
+                    elif self._read_call(e, st) is not None:
+                        nm = f"ret{i}_{s.lineno}"
+                        self._emit_read(nm, e, st)
+                        res.field_of_var[nm] = f"#{i}"
             return
         if isinstance(s, (ast.Raise, ast.Pass, ast.Continue, ast.Break)):
             return
@@ -1038,6 +1379,15 @@ class ReaderExtractor:
             idx = [i for i, a in enumerate(call.args) if isinstance(a, ast.Name) and a.id == rv][0]
             res2 = ReaderResult(callee.qualname, [], "", {}, {}, {})
             st2 = {"readers": {params[idx]: st["readers"][rv]}, "headers": {}, "res": res2, "fi": callee, "cls": st["cls"], "lists": {}, "values": {}, "emitted": st["emitted"]}
+            consts: Dict[str, Any] = {}
+            for p_, a in [(params[i], a) for i, a in enumerate(call.args) if i < len(params)] + [(k.arg, k.value) for k in call.keywords if k.arg in params]:
+                if isinstance(a, ast.Name) and a.id in st["readers"]:
+                    continue
+                try:
+                    consts[p_] = self.folder.fold(a, fi.module, st.get("consts"), st["cls"])
+                except Unfoldable:
+                    pass
+            st2["consts"] = consts
             # constant arguments (e.g. the class object for cls.filter_id) are visible through folding with self_cls
             self._block(callee.node.body, st2)
             node = RNode("inline", var=name, line=call.lineno, func=fi.qualname)
@@ -1108,6 +1458,14 @@ class ReaderExtractor:
 
     def _if(self, s: ast.If, st, optset: Optional[RNode], hv: Optional[str] = None, rv: Optional[str] = None, outer: Optional[TagSpec] = None) -> None:
         fi: FuncInfo = st["fi"]
+        if optset is not None and hv is not None and outer is None:
+            tests = []
+            c_: Optional[ast.If] = s
+            while c_ is not None:
+                tests.append(c_.test)
+                c_ = c_.orelse[0] if len(c_.orelse) == 1 and isinstance(c_.orelse[0], ast.If) else None
+            if any(self._tagtests(t_, st) is None for t_ in tests) and self._dispatch_chain(s, st, optset, hv):
+                return
         tt = self._tagtests(s.test, st)
         if tt is not None:
             h, spec = tt
